@@ -785,3 +785,72 @@ def r10_touching_supports(ck, P):
                 ck.violation(R, f.name, 'guard of integral() at %s' % cc.loc(), 'integral() is only reached when a floating-point comparison holds strictly (%s on the %s edge); filters[] has a kernel of width 0 (row %s) whose support meets the other kernel in exactly one point, so with this guard every tap of such an axis gets weight 0 and the phase no longer sums to one' % (cc.d['p'], 'true' if taken else 'false', zero[0][0] if isinstance(zero[0], list) else zero[0].get('kernel')), cc.loc())
         if n == 0:
             ck.ok(R, 'integral() at %s is called unconditionally' % c.loc())
+
+
+def r11_final_correction(ck, P):
+    """T-ALG: after normalisation the taps of a phase are summed again (new_total) and the first tap receives the residue; the stored
+    phase then sums to new_total + (pixman_fixed_1 - new_total) = pixman_fixed_1."""
+    from .sampling import _lin
+    from .factors import _loops_of
+    R = ck.rule('C18-R11', 'in create_1d_filter the residue left by the error diffusion is added to one tap of the phase: that tap becomes old + (pixman_fixed_1 - new_total), where new_total is the accumulated sum of the taps just stored, so that the stored phase sums to exactly pixman_fixed_1', floor=1)
+    u = P.units.get('pixman-filter.c')
+    f = u.functions.get('create_1d_filter') if u else None
+    if f is None:
+        ck.incomplete(R, 'create_1d_filter not found'); return
+    ck.saw(f)
+    loops = _loops_of(u).get(f.name, [])
+    inloop = set()
+    for lp in loops:
+        inloop |= set(lp['blocks'])
+    # accumulators: integer header phis whose in-loop update adds a value that the same loop stores through a cursor
+    accs = {}
+    for lp in loops:
+        blocks = set(lp['blocks'])
+        stored = set()
+        for b in blocks:
+            for x in f.blocks[b].insts:
+                if x.op == 'store' and x.a[0][0] == 'v' and f.root(f.path(x.a[1]))[0] == 'phi':
+                    stored.add(x.a[0][1])
+        for p in lp['phis']:
+            ph = f.by_id[p['v']]
+            if not ph.ty.startswith('i') or ph.ty == 'i1':
+                continue
+            for a, bb in zip(ph.a, ph.d['bb']):
+                y = f.v(a)
+                if bb in blocks and y is not None and y.op == 'add' and any(q == ['v', ph.i] for q in y.a) and any(q[0] == 'v' and q[1] in stored for q in y.a):
+                    accs[ph.i] = lp
+    n = 0
+    for x in f.insts():
+        if x.op != 'store' or x.a[0][0] != 'v':
+            continue
+        innermost = [lp for lp in loops if x.bb.id in lp['blocks']]
+        v = f.v(x.a[0])
+        if v is None or v.op not in ('add', 'sub'):
+            continue
+        # value = load (same address) +/- something
+        ld = None
+        for q in v.a:
+            y = f.v(q)
+            if y is not None and y.op == 'load' and y.a[0] == x.a[1]:
+                ld = q
+        if ld is None:
+            continue
+        lin = _lin(f, x.a[0])
+        if lin is None:
+            continue
+        # express through the accumulator
+        acc_terms = {k: c for k, c in lin.items() if isinstance(k, tuple) and k[0] == 'v' and k[1] in accs}
+        if not acc_terms:
+            continue
+        n += 1
+        rest = {k: c for k, c in lin.items() if k not in acc_terms}
+        ldkey = ('v', ld[1])
+        want_ok = rest.get(ldkey) == 1 and rest.get(1) is not None and list(acc_terms.values()) == [-1] and set(rest) <= {ldkey, 1}
+        one = rest.get(1)
+        where = 'correction at %s: tap' % x.loc()
+        if want_ok and one == 65536:
+            ck.ok(R, where + ' += 65536 - accumulated sum')
+        else:
+            ck.violation(R, f.name, 'final correction at %s' % x.loc(), 'the tap that absorbs the rounding residue becomes %s (old tap = %s, accumulated sum = %s): the phase then sums to something other than pixman_fixed_1 whenever the residue is non-zero, and a constant image is no longer reproduced' % (' + '.join('%s*%s' % (c, ('old' if k == ldkey else 'sum' if k in acc_terms else k)) for k, c in sorted(lin.items(), key=repr)), 'v%d' % ld[1], ', '.join('v%d' % k[1] for k in acc_terms)), x.loc())
+    if n == 0:
+        ck.incomplete(R, 'no tap correction by the accumulated sum found in create_1d_filter')
